@@ -757,6 +757,73 @@ def f(self, sources):
     return True
 
 
+def cache_call_sites(sym):
+    """The cached call sites of Comparator / AND / ElseIf ._evaluate__ (IndexedMemo_Facts.cached_step is the model of ONE such site):
+    a covered lookup is answered from the cache and nothing else happens for it, an uncovered one is evaluated.  Recognised, per class:
+        if is_caching_enabled() and self.<cache>.check(<lookup>):            |  if is_caching_enabled():
+            yield from self.yield_final_output_from_cache(<lookup>[, self.<cache>])   |      if self.<cache>.check(<lookup>):  ... same body
+            continue | return
+    with exactly the arguments shown (no further argument to check, the same lookup in both calls), exactly one such guard per class,
+    and self.update_cache(<row>[, self.<cache>]) called with that cache somewhere in the uncached path.  Anything else is refused."""
+    E = lambda src: ast.dump(ast.parse(src).body[0].value)
+    caching = E("is_caching_enabled()")
+    out = {}
+    for cname, cache, lookup in (('Comparator', '_cache_', 'sources'), ('AND', 'right_cache', 'left_value'), ('ElseIf', 'right_cache', 'left_value')):
+        fn = method(find(sym, ast.ClassDef, cname), '_evaluate__')
+        check = E(f"self.{cache}.check({lookup})")
+        replay = {ast.dump(ast.parse(f"yield from self.yield_final_output_from_cache({lookup})").body[0]),
+                  ast.dump(ast.parse(f"yield from self.yield_final_output_from_cache({lookup}, self.{cache})").body[0])}
+        guards = []
+        for n in ast.walk(fn):
+            if not isinstance(n, ast.If):
+                continue
+            t = ast.dump(n.test)
+            if t == ast.dump(ast.parse(f"is_caching_enabled() and self.{cache}.check({lookup})").body[0].value):
+                guards.append(n)
+            elif t == caching and len(n.body) == 1 and isinstance(n.body[0], ast.If) and ast.dump(n.body[0].test) == check and not n.orelse:
+                guards.append(n.body[0])
+            elif '.check(' in t.replace("attr='check'", '.check(') and f"attr='{cache}'" in t and t != check:
+                raise Refuse(f'{cname}._evaluate__: unrecognised coverage test on {cache}')
+        need(len(guards) == 1, f'{cname}._evaluate__: expected exactly one coverage test of {cache} on {lookup}, found {len(guards)}')
+        g = guards[0]
+        # WHERE the test stands: the chain of enclosing `if` tests (then-branches) - ElseIf asks its right-side cache only for a row its
+        # left side rejected, AND / Comparator ask unconditionally
+        def chain_of(stmts, chain):
+            for st in stmts:
+                if st is g or (isinstance(st, ast.If) and len(st.body) == 1 and st.body[0] is g):
+                    return chain
+                if isinstance(st, ast.If):
+                    r = chain_of(st.body, chain + [ast.dump(st.test)])
+                    if r is None:
+                        r = chain_of(st.orelse, chain + ['else:' + ast.dump(st.test)])
+                    if r is not None:
+                        return r
+                elif isinstance(st, (ast.For, ast.While, ast.With)):
+                    r = chain_of(st.body, chain)
+                    if r is not None:
+                        return r
+                elif isinstance(st, ast.Try):
+                    for part in (st.body, st.finalbody):
+                        r = chain_of(part, chain)
+                        if r is not None:
+                            return r
+            return None
+        where = chain_of(fn.body, [])
+        expected = [E("self.left._is_false_")] if cname == 'ElseIf' else []
+        need(where == expected, f'{cname}._evaluate__: the coverage test of {cache} does not stand where the model has it')
+        need(len(g.body) == 2 and ast.dump(g.body[0]) in replay and isinstance(g.body[1], (ast.Continue, ast.Return)) and not g.orelse,
+             f'{cname}._evaluate__: a covered lookup is not simply replayed from the cache')
+        calls = [n for n in ast.walk(fn) if isinstance(n, ast.Call) and isinstance(n.func, ast.Attribute) and n.func.attr == 'check'
+                 and isinstance(n.func.value, ast.Attribute) and n.func.value.attr == cache]
+        need(len(calls) == 1 and len(calls[0].args) == 1 and not calls[0].keywords, f'{cname}._evaluate__: the coverage test takes further arguments')
+        upd = [n for n in ast.walk(fn) if isinstance(n, ast.Call) and isinstance(n.func, ast.Attribute) and n.func.attr == 'update_cache']
+        need(upd and all(len(u.args) in (1, 2) and not u.keywords and (len(u.args) == 1 or ast.dump(u.args[1]) == E(f"self.{cache}")) for u in upd)
+             and (cache == '_cache_' or all(len(u.args) == 2 for u in upd)),
+             f'{cname}._evaluate__: rows are not stored into {cache} by update_cache(row, cache)')
+        out[cname] = True
+    return all(out.values())
+
+
 def rule_builders(rule):
     """rule.refinement / rule.alternative_or_next: how the new operator is wrapped around the current node and linked into the
     operator above it.  Recognised shapes only; anything else is refused."""
@@ -884,6 +951,7 @@ def emit(d):
     rd = reset_discipline(sym)
     dsites = dedup_sites(sym)
     oo = operand_order(sym)
+    ccs = cache_call_sites(sym)
     o = []
     o.append("(* Generated.v — REGENERATED ON EVERY RUN by translator/eql2coq.py from /repo's current source. Do not edit. *)")
     o.append("From EQL Require Import Base Values.\n")
@@ -982,6 +1050,9 @@ def emit(d):
     o.append("")
     o.append("(* SymbolicExpression._is_duplicate_output_, SeenSet.add, SeenSet.check have the statements Dedup.dup_check transcribes (pinned) *)")
     o.append(f"Definition dedup_site_as_modelled : bool := {'true' if ds else 'false'}.")
+    o.append("(* the cached call sites of Comparator / AND / ElseIf: a covered lookup is replayed from the cache and nothing else, an uncovered one is")
+    o.append("   evaluated and its rows stored (the shape IndexedMemo_Facts.cached_step models) *)")
+    o.append(f"Definition cached_call_sites_as_modelled : bool := {'true' if ccs else 'false'}.")
     o.append("(* Comparator.get_first_second_operands: the right operand is enumerated first iff one of its variables is bound (pinned) *)")
     o.append(f"Definition comparator_right_first_iff_bound : bool := {'true' if oo else 'false'}.")
     o.append("(* where AND / ElseIf apply the duplicate check: to a FALSE left row that is passed up / to a TRUE row of the right side *)")
